@@ -80,6 +80,8 @@ def cpp_defs(obl):
             d.append("-D%s=%s" % (k, v))
     for f in obl.get("pre_include", []):
         d += ["-include", os.path.join(VERIF, f)]
+    for i in obl.get("incdirs", []):
+        d.append("-I" + os.path.join(REPO, i))
     return d
 
 
@@ -462,22 +464,28 @@ def native_replay(obl, bundle, values, hang_is_violation):
     with open(vals, "w") as f:
         for v in values:
             f.write("%d\n" % v)
-    cmd = ["gcc", "-g", "-O0", "-fsanitize=address,undefined",
-           "-fno-sanitize-recover=undefined", "-fno-omit-frame-pointer",
-           "-DVP_REPLAY=1", "-w", "-ffunction-sections", "-fdata-sections", "-Wl,--gc-sections"] + inc + cpp_defs(obl)
+    base = ["gcc", "-g", "-O0", "-fsanitize=address,undefined",
+            "-fno-sanitize-recover=undefined", "-fno-omit-frame-pointer",
+            "-DVP_REPLAY=1", "-w", "-ffunction-sections", "-fdata-sections"]
+    # the replay runtime must not see the harness' pre-includes (allocator caps ...)
+    rt_obj = os.path.join(bundle, "replay_nondet.o")
+    cmd0 = base + ["-c", os.path.join(VERIF, "stubs/replay_nondet.c"), "-o", rt_obj]
+    cmd = base + ["-Wl,--gc-sections"] + inc + cpp_defs(obl)
     cmd += src_list(obl)
     cmd += [os.path.join(VERIF, s) for s in obl.get("replay_stubs", [])]
-    cmd += [os.path.join(VERIF, "stubs/replay_nondet.c"), "-o", exe]
+    cmd += [rt_obj, "-o", exe]
     cmd += obl.get("replay_libs", [])
     with open(os.path.join(bundle, "run.sh"), "w") as f:
         f.write("#!/bin/sh\n# rebuild and re-run the counterexample natively (ASan+UBSan)\n")
         f.write("set -e\ncd \"$(dirname \"$0\")\"\n")
-        f.write(" ".join(shlex.quote(c) for c in cmd).replace(exe, "./replay.exe") + "\n")
+        f.write(" ".join(shlex.quote(c) for c in cmd0).replace(rt_obj, "./replay_nondet.o") + "\n")
+        f.write(" ".join(shlex.quote(c) for c in cmd).replace(exe, "./replay.exe").replace(rt_obj, "./replay_nondet.o") + "\n")
         f.write("VP_VALUES=./values.txt ASAN_OPTIONS=detect_leaks=0 timeout 20 ./replay.exe\n")
     os.chmod(os.path.join(bundle, "run.sh"), 0o755)
+    p0 = subprocess.run(cmd0, stdout=subprocess.PIPE, stderr=subprocess.STDOUT)
     p = subprocess.run(cmd, stdout=subprocess.PIPE, stderr=subprocess.STDOUT)
-    if p.returncode != 0:
-        return "build_failed", p.stdout.decode("utf-8", "replace")[-3000:]
+    if p0.returncode != 0 or p.returncode != 0:
+        return "build_failed", (p0.stdout + p.stdout).decode("utf-8", "replace")[-3000:]
     env = dict(os.environ, VP_VALUES=vals, ASAN_OPTIONS="detect_leaks=0:abort_on_error=0")
     try:
         r = subprocess.run([exe], stdout=subprocess.PIPE, stderr=subprocess.STDOUT,
